@@ -4,22 +4,27 @@ from jv import drive, rulegen as RG
 LEVEL = "exploration"
 RULE = ("S-syn listings x rules with $not in leading, inner, trailing and repeated (times) position at instruction level "
         "(argument: one item, or a two-instruction $and of which only the first half matches) and $not in operand "
-        "lists followed by further operand items / a following instruction item. Oracle: R-dsl differential; every hit "
+        "lists followed by further operand items / a following instruction item; $not as a child of operand-level $or / $and_any_order; "
+        "probe strata: three- and four-operand instructions with an operand $not before further items, and $not: [$not: [G]] with "
+        "a multi-instruction G. Oracle: R-dsl differential; every hit "
         "text must decode to exactly a model window (catches 'consumed two instructions' and hits that do not start at "
         "a record). Non-trivial = model finds the rule or one mutation from a found case; distinct = (rule, listing).")
 FLOOR = {"quick": 300, "thorough": 4000}
 ANCHOR_HINTS = ["node_branch_root", "ast_builder"]
-REQUIRED_EVENTS = ["hits_located"]
+REQUIRED_EVENTS = ["hits_located", "operand_not_probes", "double_negation_probes"]
 
 
 def feat(rng):
-    return RG.Feat(operands=0.6, nots=0.45, onots=0.3, groups=0.15, group_times=0.25, max_depth=2,
+    return RG.Feat(operands=0.6, nots=0.45, onots=0.3, groups=0.15, ogroups=0.25, group_times=0.25, max_depth=2,
                    max_spine=rng.choice([1, 2, 3, 4]))
 
 
 def run_shard(ctx):
     d = drive.Driver(ctx, feat, flags="random", styles=("mixed", "runs", "dups", "multisec"))
     d.loop(3000, 250000)
+    from jv import strata
+    strata.operand_not_stratum(ctx, d, ctx.share(160, 6000))
+    strata.double_negation_stratum(ctx, d, ctx.share(96, 4000))
 
 
 def replay(ctx, case):
